@@ -3,9 +3,18 @@
 For each: the property it was written against plus every check that caught it before."""
 import glob, json, os, subprocess, sys
 VERIF = os.path.dirname(os.path.dirname(os.path.abspath(__file__)))
-names = sys.argv[1:]
-for d in sorted(glob.glob(os.path.join(VERIF, 'seeded', 's*'))):
+names = [a for a in sys.argv[1:] if not a.startswith('--')]
+# --shard=K/N: every N-th seed starting at K (run N of these side by side; each needs its own VSIM_SEEDED_WT);
+# --skip=FILE: names listed in FILE (first word of each line) are not evaluated again
+shard = next((a[8:] for a in sys.argv[1:] if a.startswith('--shard=')), None)
+skipf = next((a[7:] for a in sys.argv[1:] if a.startswith('--skip=')), None)
+skip = {l.split()[0] for l in open(skipf) if l.strip()} if skipf else set()
+for n_, d in enumerate(sorted(glob.glob(os.path.join(VERIF, 'seeded', 's*')))):
     name = os.path.basename(d)
+    if not os.path.isdir(d) or name in skip:
+        continue
+    if shard and n_ % int(shard.split('/')[1]) != int(shard.split('/')[0]):
+        continue
     if names and not any(n in name for n in names):
         continue
     m = json.load(open(os.path.join(d, 'meta.json')))
